@@ -16,4 +16,21 @@ func Stats$2
   props C08 C09 C10
   refines parser.StopOnErr
   modifies *
+
+func NewStatsReporter returns (sr)
+  props C17 C08
+  modifies ghost(bufSink, bufSticky)
+  ensures @fresh sr != nil && fresh(sr) && sr.output != nil && fresh(sr.output) && sr.stats == stats && sr.dateFormat == c.DateFormat
+  ensures @sink [C17] bufSink == store(old(bufSink), sr.output, payload(c.Output)) && bufSticky == store(old(bufSticky), sr.output, false)
+
+func (StatsReporter).Process returns (err)
+  props C17 C08
+  ensures err == nil
+
+func (StatsReporter).Flush returns (err)
+  props C17 C08
+  requires @args sr.output != nil && sr.stats != nil
+  modifies ghost(bufSticky, sinkFailed, sinkPend, prLen, prSink, prArg, prArgs)
+  ensures @sink [C17] BufStep(sr.output)
+  ensures @reports-loss [C17] (err != nil) == bufSticky[sr.output] && (err == nil ==> sinkPend[bufSink[sr.output]] == 0)
 @*/
